@@ -44,6 +44,17 @@ use internal::{acquire_internal, try_acquire_internal, ChannelInternal, Internal
 use pointer::KanalPtr;
 use signal::*;
 
+/// Returns the deadline of a timed operation that starts now. A duration that
+/// is too large to be represented as an [`Instant`] (e.g. `Duration::MAX`)
+/// means "no deadline in practice": it is clamped to about 30 years from now
+/// instead of panicking.
+#[inline(always)]
+fn deadline_after(duration: Duration) -> Instant {
+    let now = Instant::now();
+    now.checked_add(duration)
+        .unwrap_or_else(|| now + Duration::from_secs(86400 * 365 * 30))
+}
+
 /// Sending side of the channel with sync API. It's possible to convert it to
 /// async [`AsyncSender`] with `as_async`, `to_async` or `clone_async` based on
 /// software requirement.
@@ -791,7 +802,7 @@ impl<T> Sender<T> {
     /// ```
     #[inline(always)]
     pub fn send_timeout(&self, data: T, duration: Duration) -> Result<(), SendErrorTimeout> {
-        let deadline = Instant::now().checked_add(duration).unwrap();
+        let deadline = deadline_after(duration);
         let mut internal = acquire_internal(&self.internal);
         if internal.recv_count == 0 {
             let send_count = internal.send_count;
@@ -883,7 +894,7 @@ impl<T> Sender<T> {
         if data.is_none() {
             panic!("send data option is None");
         }
-        let deadline = Instant::now().checked_add(duration).unwrap();
+        let deadline = deadline_after(duration);
         let mut internal = acquire_internal(&self.internal);
         if internal.recv_count == 0 {
             let send_count = internal.send_count;
@@ -1183,7 +1194,7 @@ impl<T> Receiver<T> {
     /// Tries receiving from the channel within a duration
     #[inline(always)]
     pub fn recv_timeout(&self, duration: Duration) -> Result<T, ReceiveErrorTimeout> {
-        let deadline = Instant::now().checked_add(duration).unwrap();
+        let deadline = deadline_after(duration);
         let mut internal = acquire_internal(&self.internal);
         if internal.recv_count == 0 {
             return Err(ReceiveErrorTimeout::Closed);
